@@ -45,18 +45,58 @@ type Engine struct {
 	ShrinkBudget int
 	MaxTargets   int
 	minimised    map[string]int // witnesses minimised so far per class key (this process)
+	pyCache      map[string]PyResult
+}
+
+func pyKey(q *Prog) (string, string) {
+	src := Render(q, py, "")
+	return src, src + "\x00" + strings.Join(q.Export, ",")
+}
+
+// pyEval is the (cached) CPython verdict on q.
+func (e *Engine) pyEval(q *Prog) PyResult {
+	src, key := pyKey(q)
+	if r, ok := e.pyCache[key]; ok {
+		return r
+	}
+	r, err := e.Py.Eval(src, q.Export)
+	if err != nil {
+		panic(err)
+	}
+	e.pyCache[key] = r
+	return r
+}
+
+// prefetch asks CPython about a group of candidate programs in a single round trip.
+func (e *Engine) prefetch(qs []*Prog) {
+	var reqs []PyReq
+	var keys []string
+	seen := map[string]bool{}
+	for _, q := range qs {
+		src, key := pyKey(q)
+		if _, ok := e.pyCache[key]; ok || seen[key] {
+			continue
+		}
+		seen[key] = true
+		reqs = append(reqs, PyReq{Src: src, Names: q.Export})
+		keys = append(keys, key)
+	}
+	res, err := e.Py.EvalMany(reqs)
+	if err != nil {
+		panic(err)
+	}
+	for i, r := range res {
+		e.pyCache[keys[i]] = r
+	}
 }
 
 // NewEngine builds an engine around the two evaluators.
 func NewEngine(py *PyServer, a *AspEval) *Engine {
-	return &Engine{Py: py, Asp: a, ShrinkBudget: 1500, MaxTargets: 3, minimised: map[string]int{}}
+	return &Engine{Py: py, Asp: a, ShrinkBudget: 1500, MaxTargets: 3, minimised: map[string]int{}, pyCache: map[string]PyResult{}}
 }
 
 func (e *Engine) disagrees(q *Prog, route string) (bool, []Diff) {
-	pr, err := e.Py.Eval(Render(q, py, ""), q.Export)
-	if err != nil {
-		panic(err)
-	}
+	pr := e.pyEval(q)
 	if !pr.OK || pr.Risk != "" {
 		return false, nil
 	}
@@ -84,12 +124,10 @@ func (e *Engine) RunCase(index int, seed int64) CaseResult {
 // RunProg is RunCase for a given program.
 func (e *Engine) RunProg(index int, seed int64, p *Prog, feats []string) CaseResult {
 	res := CaseResult{Index: index, Seed: seed, Feats: feats, AspErr: map[string]string{}, AspOK: map[string]bool{}}
+	e.pyCache = map[string]PyResult{}
 	aspText := Render(p, asp, "")
 	res.Hash = aspText
-	pr, err := e.Py.Eval(Render(p, py, ""), p.Export)
-	if err != nil {
-		panic(err)
-	}
+	pr := e.pyEval(p)
 	res.PyOK = pr.OK
 	if !pr.OK {
 		res.PyErr = pr.Err
@@ -155,10 +193,7 @@ func (e *Engine) RunProg(index int, seed int64, p *Prog, feats []string) CaseRes
 }
 
 func (e *Engine) agrees(q *Prog, route string) bool {
-	pr, err := e.Py.Eval(Render(q, py, ""), q.Export)
-	if err != nil {
-		panic(err)
-	}
+	pr := e.pyEval(q)
 	if !pr.OK || pr.Risk != "" {
 		return false
 	}
@@ -176,22 +211,9 @@ func (e *Engine) neutralisedBy(q *Prog, route, name string) bool {
 		if n.name != name {
 			continue
 		}
-		k := n.sites(q)
-		if k == 0 {
-			return false
-		}
-		r := q.clone()
-		n.apply(r, -1)
-		if e.agrees(r, route) {
-			return true
-		}
-		if k > 1 && k <= 6 {
-			for i := 0; i < k; i++ {
-				r := q.clone()
-				n.apply(r, i)
-				if e.agrees(r, route) {
-					return true
-				}
+		for _, r := range variants(n, q) {
+			if e.agrees(r, route) {
+				return true
 			}
 		}
 	}
@@ -240,24 +262,24 @@ func (e *Engine) shrinkFinding(p *Prog, target, route string) *Finding {
 	}
 	// 1. Does the disagreement need the languages' own operator precedence?
 	if len(longestChain(start)) >= 2 && e.agrees(parenthesised(start), evalRoute) {
-		small, _, evals := Shrink(start, target, e.ShrinkBudget, func(q *Prog) bool {
+		small, _, evals := Shrink(start, target, e.ShrinkBudget, e.prefetch, func(q *Prog) bool {
 			return len(longestChain(q)) >= 2 && base(q) && e.agrees(parenthesised(q), evalRoute)
 		})
 		return finish(small, "prec/"+chainShape(longestChain(small)), true, evals)
 	}
 	// 2. Differential diagnosis on the (sliced) program.
 	if class := e.classify(start, evalRoute, false); class != "" {
-		if e.minimised[class+suffix] >= 2 {
+		if e.minimised[class+suffix] >= 1 {
 			return finish(start, class, false, 0)
 		}
 		e.minimised[class+suffix]++
-		small, _, evals := Shrink(start, target, e.ShrinkBudget, func(q *Prog) bool {
+		small, _, evals := Shrink(start, target, e.ShrinkBudget, e.prefetch, func(q *Prog) bool {
 			return base(q) && e.neutralisedBy(q, evalRoute, class)
 		})
 		return finish(small, class, true, evals)
 	}
 	// 3. Unknown class: minimise, then diagnose the minimal program; fall back to its skeleton.
-	small, target, evals := Shrink(start, target, e.ShrinkBudget, base)
+	small, target, evals := Shrink(start, target, e.ShrinkBudget, e.prefetch, base)
 	if len(longestChain(small)) >= 2 && e.agrees(parenthesised(small), evalRoute) {
 		return finish(small, "prec/"+chainShape(longestChain(small)), true, evals)
 	}
